@@ -59,11 +59,24 @@ def gen_case(rng, maxops):
             elif r < .32:
                 ops.append('o%d' % c); lens[c] = max(0, n - 1)
             elif r < .42:
-                i = rng.choice([0, n, n // 2, rng.randrange(0, n + 1)]); ops.append('i%d,%d,%d' % (c, i, v())); lens[c] += 1
-            elif r < .50 and n:
-                i = rng.choice([0, n - 1, rng.randrange(0, n)]); ops.append('x%d,%d' % (c, i)); lens[c] -= 1
+                if rng.random() < .3:       # signed / refused indices: -1 .. -(n+2), n+1, far away
+                    base = n + 1 if k in 'AE' else n
+                    i = rng.choice([-1, -base, -base - 1, -(base // 2) - 1, n + 1, -2**40, 2**40, -rng.randrange(1, base + 3)])
+                    ok = (0 <= i <= n) if i >= 0 else (base + i >= 0)
+                    if k in 'LF' and i >= 0: ok = (i == 0 or i < n)
+                    ops.append('i%d,%d,%d' % (c, i, v())); lens[c] += 1 if ok else 0
+                else:
+                    i = rng.choice([0, n, n // 2, rng.randrange(0, n + 1)]); ops.append('i%d,%d,%d' % (c, i, v())); lens[c] += 1
+            elif r < .50 and (n or rng.random() < .2):
+                if rng.random() < .3 or not n:
+                    i = rng.choice([-1, -n, -n - 1, -(n // 2) - 1, n, -2**40, 2**40, -rng.randrange(1, n + 3)])
+                    ok = (0 <= i < n) if i >= 0 else (n + i >= 0)
+                    ops.append('x%d,%d' % (c, i)); lens[c] -= 1 if ok else 0
+                else:
+                    i = rng.choice([0, n - 1, rng.randrange(0, n)]); ops.append('x%d,%d' % (c, i)); lens[c] -= 1
             elif r < .58 and n:
-                ops.append('s%d,%d,%d' % (c, rng.randrange(0, n), v()))
+                i = rng.randrange(0, n) if rng.random() < .7 else rng.choice([-1, -n, -n - 1, n, -rng.randrange(1, n + 3)])
+                ops.append('s%d,%d,%d' % (c, i, v()))
             elif r < .64:
                 ops.append('r%d,%d' % (c, v())); lens[c] = None   # unknown whether present
             elif r < .70:
